@@ -26,16 +26,19 @@ def unchanged(cx, label, before, **after):
 
 @harness("C15", "rdm_propagate_repeat",
          quick=[dict(kind="tensor", first_nref=1), dict(kind="lindblad_op", first_nref=1),
-                dict(kind="none", first_nref=2)],
+                dict(kind="none", first_nref=2), dict(kind="tensor", first_nref=1, pdeph="Lorentzian"),
+                dict(kind="tensor", first_nref=1, pdeph="Gaussian")],
          thorough=[dict(kind=k, first_nref=r) for k in ("none", "tensor", "lindblad_op", "lindblad_tensor", "td_tensor")
-                   for r in (1, 2) if not (k == "td_tensor" and r == 2)],
+                   for r in (1, 2) if not (k == "td_tensor" and r == 2)] +
+                  [dict(kind="tensor", first_nref=r, pdeph=d) for r in (1, 2) for d in ("Lorentzian", "Gaussian")],
          functions=[F_P + ":ReducedDensityMatrixPropagator.propagate",
                     F_P + ":ReducedDensityMatrixPropagator.setDtRefinement",
                     F_P + ":ReducedDensityMatrixPropagator._INIT_EXP"],
          bound="N=2, order 2, 2 stored times; histories [propagate, propagate] and [propagate(Nref=2), propagate()] on "
-               "one propagator; H, generator, initial state symbolic",
+               "one propagator; H, generator, initial state symbolic; also with an additional pure-dephasing object "
+               "(Lorentzian / Gaussian, symbolic rates)",
          out="field-driven variants")
-def rdm_propagate_repeat(cx, kind, first_nref):
+def rdm_propagate_repeat(cx, kind, first_nref, pdeph=None):
     from quantarhei.qm import ReducedDensityMatrixPropagator
     from harness.C02 import make_system, initial_state
     N = 2
@@ -43,12 +46,23 @@ def rdm_propagate_repeat(cx, kind, first_nref):
     rhoi, rho0 = initial_state(cx, N)
     before = snapshot_arrays(H=ham._data, rho=rhoi._data, t=time.data,
                              R=(RT._data if (RT is not None and not RT.as_operators) else None))
-    fresh = ReducedDensityMatrixPropagator(time, ham, RTensor=RT).propagate(rhoi, method="short-exp-2").data.copy()
-    prop = ReducedDensityMatrixPropagator(time, ham, RTensor=RT)
+    kw = {}
+    if pdeph is not None:
+        from quantarhei.qm.liouvillespace.puredephasing import PureDephasing
+        with cx.concrete():
+            pd = PureDephasing(drates=numpy.zeros((N, N)), dtype=pdeph)
+        pd.data = cx.real_symmetric("gam", N, zero_diag=True)
+        before["gam"] = pd.data.copy()
+        kw = dict(PDeph=pd)
+    fresh = ReducedDensityMatrixPropagator(time, ham, RTensor=RT, **kw).propagate(rhoi, method="short-exp-2").data.copy()
+    unchanged(cx, "after_fresh", before, H=ham._data, rho=rhoi._data, t=time.data)
+    prop = ReducedDensityMatrixPropagator(time, ham, RTensor=RT, **kw)
     first = prop.propagate(rhoi, method="short-exp-2", Nref=first_nref).data.copy()
     unchanged(cx, "after_first", before, H=ham._data, rho=rhoi._data, t=time.data)
     if before["R"] is not None:
         cx.prove_eq("after_first/input_unchanged_R", RT._data, before["R"])
+    if pdeph is not None:
+        cx.prove_eq("after_first/input_unchanged_dephasing_rates", pd.data, before["gam"])
     second = prop.propagate(rhoi, method="short-exp-2").data.copy()
     label = "repeat_after_refined_call" if first_nref > 1 else "repeat"
     cx.prove_eq(label, second, fresh, tol=1e-9)
@@ -56,7 +70,7 @@ def rdm_propagate_repeat(cx, kind, first_nref):
         cx.prove_eq("first_equals_fresh", first, fresh)
     else:
         # the same refined call twice on one propagator, and on a fresh one
-        p2 = ReducedDensityMatrixPropagator(time, ham, RTensor=RT)
+        p2 = ReducedDensityMatrixPropagator(time, ham, RTensor=RT, **kw)
         r1 = p2.propagate(rhoi, method="short-exp-2", Nref=first_nref).data.copy()
         r2 = p2.propagate(rhoi, method="short-exp-2", Nref=first_nref).data.copy()
         cx.prove_eq("refined_repeat", r2, r1, tol=1e-9)
